@@ -13,18 +13,10 @@ from decimal import Decimal
 from fractions import Fraction as F
 
 from . import common
-from .driver_replay import dec_str
+from .driver_replay import dec_str, limbs
 
 COLS = ['pipeline_id', 'arrival_seconds', 'priority', 'operator_id', 'parents', 'baseline_cpu_seconds', 'cpu_scaling', 'memory_gb', 'storage_read_gb']
 TPS = [1, 10, 100, 1000, 10**4, 10**5, 3, 7, 60, 25]
-
-
-def limbs(n: int):
-    out = []
-    while n:
-        out.append(n % 10000)
-        n //= 10000
-    return out
 
 
 def arr_json(text: str):
